@@ -90,6 +90,7 @@ static void b_setopt_sec(unsigned n)
 			CHECK("C01,C16", ns->name != o.name && strcmp(ns->name, "o") == 0, "the instance carries a private copy of the section name");
 			CHECK("C01,C16", value ? (ns->title != NULL && ns->title != value && ns->title[0] == value[0] && ns->title[1] == 0) : ns->title == NULL, "the instance carries a private copy of its title");
 			CHECK("C01,C12", ns->flags == (k_cfgflags | ((k_flags & CFGF_KEYSTRVAL) ? CFGF_KEYSTRVAL : 0)), "the instance inherits the context flags (plus free-form keys when declared so)");
+			CHECK("C19", ns->pff == NULL && ns->comment == NULL, "a new instance has no print filter of its own: it inherits the enclosing one at print time");
 			CHECK("C06", ns->line == cfg.line && ns->errfunc == cfg.errfunc && (cfg.filename ? (ns->filename != NULL && ns->filename != cfg.filename && strcmp(ns->filename, "f") == 0) : ns->filename == NULL),
 			      "the instance inherits file name (private copy), line and error function");
 		} else {
